@@ -116,3 +116,17 @@ package ratelimit
 //@            container.RingBuffer[int64].cur, container.RingBuffer[int64].full, allelems(int64)
 //@   ensures BO(l)
 //@   loop 1 invariant BO(l) && len(resp.Question) >= 1
+
+// window-exact: for a non-decreasing history, "the event n-1 positions before
+// the newest lies inside the interval" is the same as "the newest n events all
+// lie inside the interval", i.e. at least n-1 earlier events of this subnet
+// fall into [ts - ivl, ts]: no early drop and no late pass, including equal
+// timestamps and the boundary ts - tail == ivl.
+//
+//@ lemma window-exact
+//@   property C09
+//@   forall log map[int]int, k int, n int, ts int, ivl int
+//@   requires n >= 1 && k >= n && log[k - 1] == ts
+//@   requires forall i int, j int :: 0 <= i && i <= j && j < k ==> log[i] <= log[j]
+//@   ensures (ts - log[k - n] <= ivl) == (forall j int :: k - n <= j && j < k ==> ts - log[j] <= ivl)
+//@   ensures k > n && ts - log[k - n] > ivl ==> (forall j int :: 0 <= j && j <= k - n ==> ts - log[j] > ivl)
